@@ -64,7 +64,7 @@ def _block(btype, body, e):
     return struct.pack(e + "II", btype, n) + body + b"\x00" * pad + struct.pack(e + "I", n)
 
 
-def pcapng(items, le=True, tsresol=None, tsoffset=None, snaplen=262144, junk_blocks=False, offset_first=False, extra_opts=False, epb_opts=False, pre_idb=(), obsolete_pb=0.0):
+def pcapng(items, le=True, tsresol=None, tsoffset=None, snaplen=262144, junk_blocks=False, offset_first=False, extra_opts=False, epb_opts=False, pre_idb=(), obsolete_pb=0.0, seclen=False):
     """items: list of ('pkt', ts_us:int, frame) | ('dsb', bytes) | ('raw', btype, body)
     offset_first: write if_tsoffset before if_tsresol in the IDB (pcapng prescribes no option order);
     obsolete_pb: fraction of packets written as (obsolete) Packet Blocks, type 2, instead of Enhanced Packet Blocks;
@@ -73,7 +73,8 @@ def pcapng(items, le=True, tsresol=None, tsoffset=None, snaplen=262144, junk_blo
     e = "<" if le else ">"
     shb_opts = b""
     if extra_opts:
-        shb_opts = _opt(2, b"x86_64 harness", e) + _opt(3, b"Linux 6.1", e) + _opt(4, b"tleverif netsynth", e) + _opt(0, b"", e)
+        shb_opts = (_opt(2, b"Intel(R) Core(TM) i7-8550U CPU @ 1.80GHz (with SSE4.2)", e) + _opt(3, b"Linux 6.1.0-13-amd64", e) +
+                    _opt(4, b"Dumpcap (Wireshark) 4.0.11 (Git v4.0.11 packaged as 4.0.11-1~deb12u1)", e) + _opt(0, b"", e))      # as long as the ones real tools write
     out = [_block(0x0A0D0D0A, struct.pack(e + "IHHq", 0x1A2B3C4D, 1, 0, -1) + shb_opts, e)]
     o_res = _opt(9, bytes([tsresol]), e) if tsresol is not None else b""
     o_off = _opt(14, struct.pack(e + "q", tsoffset), e) if tsoffset is not None else b""
@@ -119,6 +120,9 @@ def pcapng(items, le=True, tsresol=None, tsoffset=None, snaplen=262144, junk_blo
             out.append(_block(10, struct.pack(e + "II", 0x544C534B, len(it[1])) + it[1], e))
         elif it[0] == "raw":
             out.append(_block(it[1], it[2], e))
+    if seclen:      # the section header states the real length of the section (octets behind the SHB) instead of -1 "unspecified"
+        n = sum(len(b) for b in out[1:])
+        out[0] = _block(0x0A0D0D0A, struct.pack(e + "IHHq", 0x1A2B3C4D, 1, 0, n) + shb_opts, e)
     return b"".join(out)
 
 
